@@ -57,8 +57,9 @@ pub fn case_strategy(filter: impl Strategy<Value = u8>) -> impl Strategy<Value =
         ),
         0u8..3,
         any::<u16>(),
+        (0u8..4, any::<u16>(), any::<u16>()),
     )
-        .prop_map(|(text, labels, n_tags, tags, filter, rules, pool_mode, type_sel)| {
+        .prop_map(|(text, labels, n_tags, tags, filter, rules, pool_mode, type_sel, (sparse, sa, sb))| {
             let chars: Vec<char> = text
                 .iter()
                 .map(|&i| match pool_mode {
@@ -69,7 +70,25 @@ pub fn case_strategy(filter: impl Strategy<Value = u8>) -> impl Strategy<Value =
                 })
                 .collect();
             let n = chars.len();
-            let labels = labels[..n - 1].to_vec();
+            let mut labels = labels[..n - 1].to_vec();
+            // long tokens: uniformly random labels never leave a token of more than a few
+            // characters (surfaces of 64, 128, 256 ... bytes need 22+ characters)
+            match sparse {
+                1 => {
+                    for (i, l) in labels.iter_mut().enumerate() {
+                        if (i * 7 + sa as usize) % 29 != 0 {
+                            *l = NB;
+                        }
+                    }
+                }
+                2 if n > 2 => {
+                    let (a, b) = (pick(sa, n - 1), pick(sb, n - 1));
+                    for (i, l) in labels.iter_mut().enumerate() {
+                        *l = if i == a || i == b { WB } else { NB };
+                    }
+                }
+                _ => {}
+            }
             let tags: Vec<Vec<Option<String>>> = (0..n)
                 .map(|i| (0..n_tags).map(|j| tags[i][j].map(|t| format!("T{t}"))).collect())
                 .collect();
@@ -178,6 +197,14 @@ fn expected(case: &FilterCase) -> RefSentence {
     out
 }
 
+fn max_token_bytes(rs: &RefSentence) -> usize {
+    oracle::ref_tokens(&rs.labels)
+        .iter()
+        .map(|t| rs.chars[t.start..t.end].iter().map(|c| c.len_utf8()).sum::<usize>())
+        .max()
+        .unwrap_or(0)
+}
+
 pub fn test_case(case: &FilterCase) -> TestResult {
     let mut s = case.sentence.to_sentence()?;
     let before = util::observe(&s);
@@ -227,7 +254,13 @@ pub fn test_case(case: &FilterCase) -> TestResult {
         .class(changed_labels, "changed-boundaries")
         .class(changed_tags, "changed-tags")
         .class(unknown_overwritten, "unknown-label-overwritten")
-        .class(before.text.graphemes(true).any(|g| g.chars().count() > 2), "cluster>2-chars"))
+        .class(before.text.graphemes(true).any(|g| g.chars().count() > 2), "cluster>2-chars")
+        .class(max_token_bytes(&case.sentence) >= 64, "token>=64-bytes")
+        .class(max_token_bytes(&case.sentence) >= 256, "token>=256-bytes")
+        .class(
+            case.filter == 8 && changed_tags && case.rules.iter().any(|r| r.0.len() >= 64),
+            "rule-surface>=64-bytes-applied",
+        ))
 }
 
 pub fn run(rep: &mut Report) {
@@ -237,7 +270,7 @@ jamo, prepend/spacing marks and the six character types: after-state equals an i
 reference rule applied to the before-state (every other boundary/tag unchanged), text/types/ \
 n_tags/scores untouched, f(f(s)) = f(s). Non-trivial = the filter changes >= 1 boundary/tag and \
 leaves >= 1 eligible-looking one untouched.";
-    let n = rep.n(100000, 1000000);
+    let n = rep.n(100000, 3000000);
     rep.run_prop("type-filter", rule, n, || case_strategy(0u8..6), test_case);
     rep.run_prop("linebreak-filter", rule, n, || case_strategy(Just(6u8)), test_case);
     rep.run_prop("grapheme-filter", rule, n, || case_strategy(Just(7u8)), test_case);
